@@ -94,7 +94,9 @@ func (t *Enum) Validate(root *Root) (errs []error) {
 				errs = append(errs, fmt.Errorf("%w, %s is not a valid enum value for enum %s at %d:%d",
 					ErrValidation, ev.Value, t.Name(), ev.line, ev.col))
 			default:
-				errs = append(errs, validateName(t.core, "enum value", string(ev.Value), ev.line, ev.col)...)
+				// No built-in enum has a value with a reserved name so a
+				// value with one was added by an extension.
+				errs = append(errs, validateName(false, "enum value", string(ev.Value), ev.line, ev.col)...)
 			}
 			for _, du := range ev.Directives {
 				errs = append(errs, root.validateDirUse(t.Name()+"."+string(ev.Value), Locate(ev), du)...)
